@@ -647,6 +647,18 @@ PLANS["X03"] = dict(
     )],
 )
 
+PLANS["X04"] = dict(
+    level_text="growth: lazily resolved, sticky configuration / plugin / cache roots (dir package) as a state machine over environment changes, assignments and resolutions",
+    level_note="not a listed property; Unix rules of os.UserConfigDir / os.UserCacheDir", rule="all operation histories of depth 3 (4 in the thorough tier)", exhaustive=True,
+    phases=[dict(
+        name="roots",
+        gen=dict(module="MC_DirRoots", cfg=lambda tier, seed: mc_cfg(["Inv_Resolved", "Inv_LibFollowsCfg", "Inv_Emit"], consts=["Depth = 4" if tier == "thorough" else "Depth = 3"],
+                                                                     extra=["PROPERTY Prop_Sticky"]), select=take_all),
+        drive=dict(driver="dirroots"),
+        validate=dict(module="Trace_DirRoots", cfg=trace_cfg()),
+    )],
+)
+
 PLANS["X05"] = dict(
     level_text="growth: plugin/proto codecs (key specs, hash and signing algorithms, RequestError JSON) as total functions with inverse laws, tied to the round-trip tables of Notation.tla",
     level_note="not a listed property", rule="all inputs of the codec alphabets", exhaustive=True,
